@@ -53,7 +53,16 @@ pub fn relations(ctx: &mut Ctx, index: u64, c: &Curve, w: &str, r: Option<&mut R
     let path = c.path();
     let lens = c.lengths();
     if path.is_empty() {
+        // nothing to be at, but every query still has to answer (a panic here is reported by the case runner)
         ctx.count("c19_empty_curves");
+        for p in [0.0, 0.5, 1.0, -1.0, 2.0] {
+            let q = c.position_at(p);
+            let d = c.progress_to_dist(p);
+            if !(q.x.is_finite() && q.y.is_finite()) || d != 0.0 {
+                ctx.violation("empty_curve", format!("empty curve: position_at({p}) = {q:?}, progress_to_dist = {d:?}"), index, w.as_bytes());
+                return;
+            }
+        }
         return;
     }
     if path.iter().any(|p| !p.x.is_finite() || !p.y.is_finite()) || lens.iter().any(|l| !l.is_finite()) {
@@ -166,7 +175,8 @@ pub fn run(ctx: &mut Ctx) {
             continue;
         }
         let mut r = ctx.rng_for(0, i);
-        let pts = paths::random_points(&mut r);
+        // now and then the empty control-point list: a curve without any point still answers every query
+        let pts = if i % 512 == 7 { Vec::new() } else { paths::random_points(&mut r) };
         let mode = MODES[r.below(4)];
         if i % 2 == 1 {
             // the shared buffers still hold an unrelated borrowed curve
